@@ -84,12 +84,28 @@ func staticSetup() *staticEnv {
 	}
 	mk("dir", func(r *rux.Router) { r.StaticDir("/assets", e.root) })
 	mk("dir-samename", func(r *rux.Router) { r.StaticDir("/assets", root2) })
+	// a relative root, given after the process has changed its working directory: relative to where the process is NOW
+	if err := os.Chdir(tmp); err != nil {
+		fatal("%v", err)
+	}
+	mk("dir-relative", func(r *rux.Router) { r.StaticDir("/assets", "root") })
+	mk("css-relative", func(r *rux.Router) { r.StaticFiles("/assets", "./root", "css") })
+	// a file system of the application's own that joins the name it is given onto its root: it relies on being handed the
+	// cleaned, rooted names net/http's file server produces
+	mk("fs-naive", func(r *rux.Router) { r.StaticFS("/assets", naiveFS{e.root}) })
 	mk("fs", func(r *rux.Router) { r.StaticFS("/assets", http.Dir(e.root)) })
 	mk("css", func(r *rux.Router) { r.StaticFiles("/assets", e.root, "css") })
 	mk("cssjs", func(r *rux.Router) { r.StaticFiles("/assets", e.root, "css|js") })
 	mk("one", func(r *rux.Router) { r.StaticFile("/assets/{any:.+}", filepath.Join(e.root, "a.txt")) })
 	return e
 }
+
+type naiveFS struct{ root string }
+
+func (n naiveFS) Open(name string) (http.File, error) { return os.Open(filepath.Join(n.root, name)) }
+
+// staticTwin: handlers that must answer exactly like another one (same files, configured in another way)
+var staticTwin = map[string]string{"dir-relative": "dir", "css-relative": "css"}
 
 func staticReplay(s *Summary, raw json.RawMessage) {
 	var c staticCase
@@ -109,6 +125,19 @@ func staticReplay(s *Summary, raw json.RawMessage) {
 	if len(s.Samples) < 3 && len(c.Raw) == 3 {
 		s.sample(map[string]any{"url": rawPath, "model_dir": c.Dir, "model_files_css": c.Files["css"]})
 	}
+	answers := map[string]string{}
+	defer func() {
+		for name, twin := range staticTwin {
+			for k, a := range answers {
+				if strings.HasPrefix(k, name+"#") && answers[twin+"#"+strings.TrimPrefix(k, name+"#")] != a {
+					s.mismatch(map[string]any{"kind": "static", "aspect": "precision", "handler": name, "what": fmt.Sprintf(
+						"%s handler, request variant %s of %q: answered %q, the %s handler (same files) answered %q", name, strings.TrimPrefix(k, name+"#"), rawPath, a, twin,
+						answers[twin+"#"+strings.TrimPrefix(k, name+"#")])}, c)
+					return
+				}
+			}
+		}
+	}()
 	for name, r := range e.routers {
 		// variants of the same request: as parsed, and with a back-slash / NUL / trailing dot appended to the decoded path
 		paths := []string{u.Path, strings.ReplaceAll(u.Path, "/", "\\"), u.Path + "\x00", u.Path + ".", "/assets//" + strings.TrimPrefix(u.Path, "/assets/")}
@@ -121,6 +150,7 @@ func staticReplay(s *Summary, raw json.RawMessage) {
 			}()
 			s.Compared++
 			body := w.Body.String()
+			answers[fmt.Sprintf("%s#%d", name, vi)] = fmt.Sprintf("%d %s", w.Code, body)
 			desc := func(aspect, what string) map[string]any {
 				return map[string]any{"kind": "static", "aspect": aspect, "handler": name, "what": fmt.Sprintf("%s handler, GET %q: %s", name, p, what)}
 			}
@@ -148,7 +178,7 @@ func staticReplay(s *Summary, raw json.RawMessage) {
 			}
 			if vi != 0 {
 				// precision is only judged on the request as the model describes it
-				if (name == "css" || name == "cssjs") && served != "" {
+				if (name == "css" || name == "cssjs" || name == "css-relative") && served != "" {
 					ok := strings.HasSuffix(served, ".css") || (name == "cssjs" && strings.HasSuffix(served, ".js"))
 					if !ok {
 						s.mismatch(desc("extension", "served "+served+" which does not have an allowed extension"), c)
@@ -160,6 +190,9 @@ func staticReplay(s *Summary, raw json.RawMessage) {
 			if name == "css" || name == "cssjs" {
 				model = c.Files[name]
 			}
+			if name == "css-relative" {
+				model = c.Files["css"]
+			}
 			switch model.Kind {
 			case "file":
 				want := strings.Join(model.Path, "/")
@@ -170,7 +203,7 @@ func staticReplay(s *Summary, raw json.RawMessage) {
 			default:
 				// a directory may be listed or redirected, index.html may be served for it; otherwise no file content
 				idx := strings.TrimPrefix(strings.Join(model.Path, "/")+"/index.html", "/")
-				if served != "" && !(model.Kind == "dir" && served == idx && name != "css" && name != "cssjs") {
+				if served != "" && !(model.Kind == "dir" && served == idx && name != "css" && name != "cssjs" && name != "css-relative") {
 					s.mismatch(desc("precision", fmt.Sprintf("answered %d with the content of %s, the model serves %s", w.Code, served, model.Kind)), c)
 				}
 			}
